@@ -353,5 +353,60 @@ class DiscoverPlaceholders(Target):
                 ('latest-is-the-numerically-highest-iteration', Eq(ph['latest'], want))]
 
 
-TARGETS = [DiscoverPlaceholders(), ComputeDoWhileState(), MapPlaceholder(), LoopedReferencePaths(), RewriteComponents(), InstantiateDoWhile()]
+class NextIterationKeepsStoredDocument(Target):
+    """instantiate_dowhile_next_iteration up to (and including) its call of instantiate_dowhile, with the real
+    instantiate_dowhile and rewrite_loopbindings_for_stage_offset interpreted from their source: the STORED DoWhile
+    document handed in must come out unchanged, whichever of the two functions protects it (history quantifier:
+    no stage-offset drift of the loop bindings over repeated instantiations)."""
+    prop = 'C05'
+    name = 'WorkflowGraph.instantiate_dowhile_next_iteration[stored-document]'
+    file = G
+    qualname = 'WorkflowGraph.instantiate_dowhile_next_iteration'
+    slice = (None, 'instantiate_dowhile(', True)
+    inline = {'experiment.model.frontends.flowir.instantiate_dowhile': (F, 'instantiate_dowhile'),
+              'rewrite_loopbindings_for_stage_offset': (F, 'rewrite_loopbindings_for_stage_offset'),
+              'extract_ids_from_components': (F, 'extract_ids_from_components')}
+    native_replay = False
+    trusted = InstantiateDoWhile.trusted + ["expand_bindings returns the bindings (latest loop instances resolved)"]
+
+    def setup(self, c):
+        it_no = c.int('next_iteration')
+        c.require(compare('>=', it_no, 1))
+        stage = c.one_of('import_stage', [0, 2])
+        lb = {'carried': Ref('prod', 'out.txt', 'ref', 0)}
+        doc = {FlowIR.FieldComponents: [{'name': 'prod', 'stage': 0}, {'name': 'cond', 'stage': 0}],
+               'inputBindings': {'carried': {'type': 'ref'}}, 'loopBindings': lb,
+               'condition': Ref('cond', 'out.txt', 'output', 0), 'stage': stage, 'name': 'loop',
+               'bindings': {'carried': Ref('init', 'out.txt', 'ref', 0)}}
+        this = Obj('graph', log=NULLLOG, _concrete=Obj('concrete', get_component_identifiers=Extern(
+            'get_component_identifiers', lambda c, a, b: {(0, 'init')})))
+        c.ghost['rewrite'] = None
+        return State(kwargs={'self': this, 'do_while': doc, 'next_iter_number': it_no, 'store_flowir_to_disk': False},
+                     doc=doc, lb=lb, ref=lb['carried'], stage=stage)
+
+    def externs(self, c, st):
+        def parse(c, ref, stage=None):
+            return (ref.stage, ref.producer, ref.filename, ref.method)
+        fl = Obj('FlowIR', FieldComponents=FlowIR.FieldComponents, ParseDataReferenceFull=Extern('ParseDataReferenceFull', parse),
+                 compile_reference=compile_extern())
+        return {'FlowIR.ParseDataReferenceFull': Extern('ParseDataReferenceFull', parse),
+                'FlowIR.compile_reference': compile_extern(), 'FlowIR.FieldComponents': FlowIR.FieldComponents,
+                'experiment.model.frontends.flowir.FlowIR': fl,
+                'experiment.model.frontends.flowir.expand_bindings': Extern('expand_bindings', lambda c, b, s: b),
+                'rewrite_components': Extern('rewrite_components', lambda c, *a, **k: ['<rewritten>']),
+                'validate_input_bindings_names': Extern('validate_input_bindings_names', lambda c, b: None),
+                'validate_provided_bindings': Extern('validate_provided_bindings', lambda c, *a, **k: None),
+                'pprint.pformat': Extern('pformat', lambda c, v: 'x')}
+
+    def ensures(self, c, st, out):
+        if out.kind == 'raise':
+            return [('no-exception', False)]
+        lb = st.doc.get('loopBindings')
+        same = lb is st.lb and list(lb) == ['carried'] and lb['carried'] is st.ref and st.ref.stage == 0 \
+            and st.ref.producer == 'prod'
+        return [('stored-document-loop-bindings-are-unchanged', same),
+                ('stored-document-keeps-its-bindings', 'bindings' in st.doc)]
+
+
+TARGETS = [NextIterationKeepsStoredDocument(), DiscoverPlaceholders(), ComputeDoWhileState(), MapPlaceholder(), LoopedReferencePaths(), RewriteComponents(), InstantiateDoWhile()]
 LEMMAS = []
